@@ -230,6 +230,186 @@ def run_case(ctx, sess, ptype, kind, payload, named):
     ctx.count("unimplemented_ok")
 
 
+# ---------------------------------------------------------------------------
+# stratum: unknown types processed while the victim's own re-key KEXINIT is out and the peer's has not arrived
+
+def tolerant_tap(rec):
+    """Attacker-side packetizer that can swallow UNIMPLEMENTED (the replies under test) while the attacker
+    tool is itself inside the key exchange and would otherwise abort on an unexpected packet type."""
+    from vf import tap as _tap
+
+    base = _tap.make_tap(rec, "a")
+
+    class Tolerant(base):
+        swallow = False
+        swallowed = 0
+
+        def read_message(self):
+            while True:
+                ptype, m = super().read_message()
+                if ptype == MSG_UNIMPLEMENTED and self.swallow:
+                    self.swallowed += 1
+                    continue
+                return ptype, m
+
+    return Tolerant
+
+
+def wait_until(cond, limit):
+    end = time.monotonic() + limit
+    while time.monotonic() < end:
+        if cond():
+            return True
+        time.sleep(0.003)
+    return bool(cond())
+
+
+def run_rekey_session(ctx, role, trigger):
+    import threading
+
+    from vf import tap as _tap
+
+    rng = ctx.rng
+    rec = _tap.Recorder()
+    att = None
+    for attempt in range(3):
+        att = attacker.Attacker(role, rng=rng, recorder=rec, attacker_kw=dict(packetizer_class=tolerant_tap(rec)))
+        if att.start(auth=True, timeout=60):
+            break
+        att.close()
+        att = None
+        rec = _tap.Recorder()
+    if att is None:
+        ctx.inconclusive("re-key stratum: handshake failed three times")
+        return
+    try:
+        att.takeover()
+        v = att.victim
+        vrole = "server" if role == "client" else "client"
+        gate = att.link.ba if role == "client" else att.link.ab  # victim -> attacker
+        desc = dict(stratum="pending re-key", victim_role=vrole, trigger=trigger)
+        gate.hold()
+        mark = att.mark()
+        th = None
+        if trigger == "api":
+            th = threading.Thread(target=lambda: v.renegotiate_keys(), daemon=True)
+            th.start()
+        else:
+            v.packetizer.REKEY_PACKETS = 1  # instance attribute: the next packet read crosses the threshold
+            att.send(2, b"")
+        if not wait_until(lambda: att.victim_msgs("out", types=(20,), since=mark), 60):
+            ctx.inconclusive("re-key stratum: victim did not send KEXINIT (%s)" % trigger)
+            return
+        if trigger != "api":
+            del v.packetizer.REKEY_PACKETS
+        ctx.count("rekey_trigger_" + trigger)
+        kex_n = att.victim_msgs("out", types=(20,), since=mark)[0]["n"]
+        att.att.packetizer.swallow = True
+        cand = sorted(t for t in range(1, 20) if t not in handled_now(v))
+        if len(v._expected_packet) > 0 or not v.in_kex:
+            ctx.inconclusive("re-key stratum: victim not in the expected state (in_kex=%s expected=%r)" % (v.in_kex, v._expected_packet))
+            return
+        chosen = rng.sample(cand, min(len(cand), rng.randint(4, 8)))
+        if MSG_UNIMPLEMENTED not in chosen and rng.random() < 0.5:
+            chosen.append(MSG_UNIMPLEMENTED)
+        sent = []
+        for ptype in chosen:
+            if rng.random() < 0.3:
+                att.send(2, rng.randbytes(rng.randint(0, 8)))
+            kind = rng.choice(PAYLOAD_KINDS)
+            payload = make_payload(rng, ptype, kind, False)
+            seq = att.send_msg(attacker.build(ptype, ("raw", payload)))
+            sent.append((ptype, kind, payload, seq))
+        fseq = att.send(2, b"")
+        if not wait_until(lambda: any(e["seq"] == fseq for e in att.victim_msgs("in", types=(2,), since=mark))
+                          or not v.is_active(), 60):
+            ctx.inconclusive("re-key stratum: victim did not read the fence")
+            return
+        peer_kex_in = [e for e in att.victim_msgs("in", types=(20,), since=mark)]
+        if peer_kex_in:
+            ctx.inconclusive("re-key stratum: peer KEXINIT reached the victim although the gate was held")
+            return
+        vin = {e["seq"]: e for e in att.victim_msgs("in", since=mark)}
+        vout = att.victim_msgs("out", since=kex_n)
+        unimpl = [e for e in vout if e["type"] == MSG_UNIMPLEMENTED]
+        for (ptype, kind, payload, seq) in sent:
+            ctx.case(("c12-rekey", role, trigger, ptype, kind, payload),
+                     sample=dict(desc, type=ptype, payload_kind=kind, payload=payload[:24]) if ptype == chosen[0] and trigger == "api" else None)
+            ctx.count("rekey_window_cases")
+            e = vin.get(seq)
+            if e is None or e["type"] != ptype or e["n"] < kex_n:
+                ctx.inconclusive("re-key stratum: victim did not read crafted type %d inside the window" % ptype)
+                continue
+            mine = [u for u in unimpl if len(u["payload"]) == 5 and struct.unpack(">I", u["payload"][1:5])[0] == seq]
+            wit = dict(case=dict(desc, type=ptype, payload=payload, kind=kind), victim_in_seq=seq,
+                       victim_sent_after_own_kexinit=[dict(type=o["type"], payload=o["payload"][:12]) for o in vout[:12]],
+                       victim_active=v.is_active(), saved_exception=repr(v.saved_exception))
+            if ptype == MSG_UNIMPLEMENTED:
+                ctx.count("rekey_window_unimplemented_sent_to_victim")
+                if mine:
+                    ctx.violation("UNIMPLEMENTED was answered with message type 3 during a pending re-key",
+                                  "an inbound SSH_MSG_UNIMPLEMENTED must never be answered", wit)
+                continue
+            if len(mine) == 1:
+                ctx.count("rekey_window_unimplemented_ok")
+            elif not mine:
+                ctx.violation("no UNIMPLEMENTED reply to an unhandled type while own re-key KEXINIT is pending",
+                              "type %d (allowed during key exchange) was read after the victim sent KEXINIT and before the "
+                              "peer's KEXINIT arrived; no SSH_MSG_UNIMPLEMENTED with its sequence number was sent" % ptype, wit)
+            else:
+                ctx.violation("more than one UNIMPLEMENTED for one packet during a pending re-key",
+                              "exactly one reply is expected", wit)
+        n_expected = len([1 for (t, _, _, _) in sent if t != MSG_UNIMPLEMENTED])
+        if len(unimpl) > n_expected:
+            ctx.violation("UNIMPLEMENTED sent for a packet that was not unhandled during a pending re-key",
+                          "the victim sent more UNIMPLEMENTED messages than unhandled packets were read",
+                          dict(case=desc, sent=[(t, q) for (t, _, _, q) in sent],
+                               unimplemented=[u["payload"] for u in unimpl]))
+        # let the exchange complete and check that the session survived
+        gate.release()
+        done = wait_until(lambda: (not v.in_kex and not att.att.in_kex and (th is None or not th.is_alive())
+                                   and len(att.victim_msgs("in", types=(21,), since=mark)) > 0) or not v.is_active()
+                          or not att.att.is_active(), 90)
+        if not v.is_active():
+            exc = v.saved_exception
+            ctx.violation("session ended during the re-key that followed unhandled messages: %s"
+                          % (core.exc_signature(exc) if exc is not None else "no exception recorded"),
+                          "the session did not keep working", dict(case=desc, exception=repr(exc)))
+            return
+        if not done or not att.att.is_active():
+            ctx.inconclusive("re-key stratum: exchange did not complete (attacker active=%s, exc=%r)"
+                             % (att.att.is_active(), att.att.saved_exception))
+            return
+        ctx.count("rekeys_completed")
+        att.att.packetizer.swallow = False
+        state = wait_probe(att, att.inbox_mark())
+        if state == "alive":
+            ctx.count("rekey_probes_answered")
+        elif state == "dead":
+            ctx.violation("session ended after the re-key that followed unhandled messages",
+                          "liveness probe after the completed exchange was not answered", dict(case=desc))
+        else:
+            ctx.inconclusive("re-key stratum: probe timeout")
+    finally:
+        att.close()
+
+
+def run_rekey_stratum(ctx):
+    n = ctx.pick(1, 4)
+    for rep in range(n):
+        for role in ("client", "server"):
+            for trigger in ("api", "threshold"):
+                if time.time() > ctx.deadline(200, 1300):
+                    ctx.count("cases_not_run_time_cap")
+                    return
+                try:
+                    run_rekey_session(ctx, role, trigger)
+                except Exception:
+                    import traceback
+
+                    ctx.inconclusive("harness error in re-key stratum: " + traceback.format_exc()[-700:])
+
+
 def run(ctx):
     rng = ctx.rng
     import paramiko.common as pc
@@ -298,6 +478,13 @@ def run(ctx):
     for sess in sessions.values():
         sess.close()
     ctx.count("sessions", n_sessions)
+    run_rekey_stratum(ctx)
+    ctx.require("rekey_window_cases", 100 if ctx.quick else 400)
+    ctx.require("rekey_window_unimplemented_ok", 80 if ctx.quick else 320)
+    ctx.require("rekeys_completed", 20)
+    ctx.require("rekey_probes_answered", 20)
+    ctx.require("rekey_trigger_api", 8)
+    ctx.require("rekey_trigger_threshold", 8)
     ctx.require("victim_inbound_seen", 300 if ctx.quick else 1500)
     ctx.require("unimplemented_replies_seen", 20)
     ctx.require("reply_seqno_compared", 20)
